@@ -881,6 +881,11 @@ func ModifyRegister(register *object.Register, in ast.Node) (ast.Node, bool) {
 	case *ast.FunctionLiteral:
 		// skip lambda/functions in functions.
 		return nil, false
+	case *ast.Builtin:
+		// del(x) needs a real variable to delete.
+		if in.Type() == token.DEL && len(in.Parameters) == 1 && in.Parameters[0] == ast.Node(register) {
+			return nil, false
+		}
 	}
 	return in, true
 }
